@@ -35,7 +35,8 @@ fork outputs contain no `None`, ports are nodes of the circuit (plus model bookk
   - `removeDangling_wf`: any node of any well-formed circuit, no further hypothesis;
   - `substitute_wf0_static`: well-formed host AND implementation + the structural precondition `substStatic` (the node is
     a cell and stays one / is not a port when it gets removed, no line from the node to itself, port list of the
-    implementation without duplicates, designated cell not a port) ⇒ the result satisfies `WFc0` = everything of `WFc`
+    implementation without duplicates, designated cell not a port — which since the repair of D32 holds by itself unless a
+    port of the implementation is a flip-flop/latch, `designated_not_port`) ⇒ the result satisfies `WFc0` = everything of `WFc`
     except gap-freeness of fork outputs — all arities, unconnected and ignored pins, ports read internally, state elements,
     removal of dangling logic included; via `substStatic_pre0` (structure ⇒ the run-time pin guards `substGuards`:
     `node_map` is injective, every occupied pin of an image stems from a copied implementation line or an instance pin);
@@ -59,10 +60,12 @@ fork outputs contain no `None`, ports are nodes of the circuit (plus model bookk
   step (also after `substitute` / `resolve_tlib_cells` / `remove_dangling_nodes`); this, not the model, decides violations.
   D30 (fixed): `substitute` with an open output pin left a `None` gap in a copied fork (`exGap` below is that use).
 * Outside the theorems: what Python does outside well-formed use (explicit pin on an occupied position, removing a node
-  that still has lines or is a port, `eliminate_1to1_forks` on a 1:1 fork without / with several input lines, `substitute`
-  with a feed-through implementation — an output port driven through forks only by an input port, which makes a PORT the
-  designated cell and corrupts the graph —, `substitute` of a cell with a line from its own output to its own input) —
-  probed by the harness and recorded as notes. -/
+  that still has lines or is a port, `eliminate_1to1_forks` on a 1:1 fork without / with several input lines,
+  `substitute` of a cell with a line from its own output to its own input) — probed by the harness and recorded as notes.
+  D32 (fixed): `substitute` with a feed-through implementation (an output port driven through forks only by an input port)
+  used to make a PORT the designated cell and corrupt the graph; since the repair such an implementation has no designated
+  cell, the model follows (`implShape`), the use is inside `substStatic` (`designated_not_port`, `exFeed`) and is part of the
+  fixed histories of the harness (`FEEDTHROUGH_WITNESS`). -/
 namespace KV.C09
 open KV.CircObj
 
